@@ -114,7 +114,47 @@ def term_stamp(cx):
                 val = a.expr_rvalue(w.data["stmt"]["rv"], w.at, 0, g.env_at(n, w.idx) or None)
                 return bool(is_f(val, TERM))
             ok = bool(tw) and g.holds_at_exit(write_eval, assume=[("in", mt, frozenset([v]), MT)])[0]
+        if not ok:
+            # third form: one store `m.term = <value chosen earlier>` (a pure helper deciding the term, spliced in) that every
+            # path to the push passes: on every path a message of this type can take, the stored value is self.term
+            ok = _single_store_value(cx, g, a, send, push, v)
         cx.check(ok, "stamp:" + v, "a %s leaves send() only after `m.term := self.term`" % v, push)
+
+
+_SSV = {}
+
+
+def _single_store_value(cx, g, a, send, push, v):
+    from ..engine import subst_phis
+    ws = [s_ for s_ in cx.prog.writes.get("Message.term", []) if s_.fn is send and s_.kind == "write" and "stmt" in s_.data]
+    if len(ws) != 1 or not g.dominated_by_block(push.at, lambda b: b == ws[0].block):
+        return False
+    w = ws[0]
+    key = (id(cx.prog), w.at)
+    if key not in _SSV:
+        val = a.expr_rvalue(w.data["stmt"]["rv"], w.at)
+        try:
+            pv = g.site_values(w.at, lambda env: dict(env or {}), 4000)
+        except OverflowError:
+            pv = None
+        _SSV.clear()
+        _SSV[key] = None if pv is None else [(lits, subst_phis(val, env)) for lits, env in pv]
+    rows = _SSV[key]
+    if not rows:
+        return False
+    n = 0
+    for lits, val in rows:
+        poss = True
+        for l in lits:
+            if l[0] in ("in", "notin") and l[1][0] == "field" and l[1][2] == "Message.msg_type":
+                if (v in l[2]) != (l[0] == "in"):
+                    poss = False
+        if not poss:
+            continue
+        n += 1
+        if not is_f(val, TERM):
+            return False
+    return n > 0
 
 
 @obligation("MSG.from_stamp", ["C08", "C10", "C20"], floor=1, kind="must-pass-through under assumption",
@@ -207,6 +247,11 @@ def heartbeat_cap(cx):
             for x, y in (mn, mn[::-1]):
                 if is_f(x, "Progress.matched") and is_committed(y):
                     ok, pr = True, x[1]
+                elif x[0] == "param" and is_committed(y) and not t.fn.is_closure:
+                    # the builder is handed the number instead of the progress: every caller passes some pr.matched
+                    cs = callers_of(cx, t.fn)
+                    if cs and all(len(call_args(cx, c_)) >= x[1] and is_f(call_args(cx, c_)[x[1] - 1], "Progress.matched") for c_ in cs):
+                        ok, pr = True, None
         cx.check(ok, key, "heartbeat commit = min(pr.matched, raft_log.committed) (found %s)" % t.show_field("commit"), t.site, value=t.show_field("commit"))
         if ok:
             # `pr` must be the progress of the addressee: (to, pr) come from one map entry at every caller
